@@ -175,6 +175,27 @@ Example C38_nonvacuous :
   model_origins C38_ex = case_origins C38_ex.
 Proof. repeat split; vm_compute; reflexivity. Qed.
 
+(** Corpus case 1 of the harness ("fork below the domain"): the omitted fork point P = 1 is
+    reached through two missing edges, from c2 = 3 (handing down lines 2, 3) and then from
+    c1 = 2 (handing down lines 0, 1, which the first child did not carry).  EVERY line left
+    in the omitted parent is marked [Err (P, its line in P)], also on the second visit. *)
+Definition C38_fork_case : case :=
+  mk_case [[]; [0]; [1]; [1]; [2; 3]]%N
+    [hex ""; hex "6c300a6c310a6c320a6c330a"; hex "6c300a6c310a63305f320a63305f330a";
+     hex "63315f300a63315f310a6c320a6c330a"; hex "6c300a6c310a6c320a6c330a"]
+    4%N
+    [(4, [(2, 0); (3, 0)]); (3, [(1, 2)]); (2, [(1, 2)])]%N
+    [((4, 2), [(0, 0, 2)]); ((4, 3), [(2, 2, 2)]); ((3, 1), [(2, 2, 2)]); ((2, 1), [(0, 0, 2)])]%N
+    [(false, 1, 0); (false, 1, 1); (false, 1, 2); (false, 1, 3)]%N
+    (hex "6c300a6c310a6c320a6c330a").
+Example C38_fork_case_ok :
+  inputs_ok C38_fork_case = true /\ stream_okb C38_fork_case = true /\
+  model_origins C38_fork_case = case_origins C38_fork_case /\ okb C38_fork_case = true /\
+  (* leaving the second hand-down unmarked (placeholder Err(start, _)) is rejected *)
+  strict_ok C38_fork_case
+    [mk_origin false 4 0; mk_origin false 4 1; mk_origin false 1 2; mk_origin false 1 3] = false.
+Proof. repeat split; vm_compute; reflexivity. Qed.
+
 Print Assumptions C38_model_ok.
 Print Assumptions C38_unresolved_outside.
 Print Assumptions C38_not_from_parent.
